@@ -280,7 +280,7 @@ class BaseGroupBy(ABC):
         result = self._grouper.nth(self._values_to_group, n)
         return (
             result
-            if isinstance(result, pd.Series)
+            if isinstance(result, (pd.Series, pd.DataFrame))
             else pd.Series(result, name=self._obj.name)
         )
 
@@ -301,7 +301,7 @@ class BaseGroupBy(ABC):
         result = self._grouper.head(self._values_to_group, n)
         return (
             result
-            if isinstance(result, pd.Series)
+            if isinstance(result, (pd.Series, pd.DataFrame))
             else pd.Series(result, name=self._obj.name)
         )
 
@@ -322,7 +322,7 @@ class BaseGroupBy(ABC):
         result = self._grouper.tail(self._values_to_group, n)
         return (
             result
-            if isinstance(result, pd.Series)
+            if isinstance(result, (pd.Series, pd.DataFrame))
             else pd.Series(result, name=self._obj.name)
         )
 
